@@ -367,6 +367,18 @@ def str_method(prop="C05"):
                       z3.Implies(z3.Length(FULL_URL(v0.self)) == 0, plain),
                       z3.Implies(z3.Not(plain), z3.PrefixOf(z3.Concat(z3.StringVal("<a href='"), FULL_URL(v0.self), z3.StringVal("'>")), r)))
     c.ensures("anchor_only_for_visible_entities_with_a_url", post)
+
+    def hidden_type_parent(v):
+        """the entity is described on the page of a derived type (component, binding, final procedure) and that type is not displayed:
+        a type extending it shares these objects, and the page their URL names is not written"""
+        par = sel(H(v, "parent"), v.self)
+        has_par = z3.Select(v._e.has_array(v._p, "parent"), v.self)
+        return z3.And(has_par, par != 0, c.classes.is_a(par, "FortranType"), z3.Not(sel(H(v, "visible"), par)))
+
+    def post2(v0, res, v1):
+        r = v1._e.to_str(v1._p, res)
+        return z3.Implies(hidden_type_parent(v0), r == name(v0))
+    c.ensures("no_anchor_into_the_page_of_a_hidden_type", post2)
     c.no_raise = True
     return c
 
